@@ -13,7 +13,7 @@ def decode(string):
 unsafe_decode = decode
 
 def validate_decoded(obj):
-  if isinstance(obj, int) or isinstance(object, gfapy.Placeholder):
+  if isinstance(obj, int) or isinstance(obj, gfapy.Placeholder):
     pass
   else:
     raise gfapy.TypeError(
